@@ -238,7 +238,11 @@ class SqlFluffColumn(Column):
                 (
                     str(src_col.parent)
                     if isinstance(src_col.parent, Table)
-                    and (src_col.parent in tables_read or src_col.parent.schema)
+                    and (
+                        src_col.parent in tables_read
+                        # a schema the reference spelled out, not the one every unqualified name gets
+                        or src_col.parent.schema != Schema()
+                    )
                     else src_col.parent.raw_name
                 )
                 if src_col.parent
